@@ -5,9 +5,9 @@ package harness
 // device applies here - every grant is a real call - so this is plain depth: in the thorough tier each strategy kind
 // grants and releases a token 2^32 + 2^16 times (the kinds run side by side, a few minutes each), with 1-3 tokens
 // outstanding from the start to the end; the quick tier stops at 2^20. Oracle: the counting gate. Every pair must be
-// granted (held < limit at that moment); around 2^31 and 2^32 grants (every call within 2^9 of them) and at every 2^24th
-// grant the instance is audited: busy == held, exactly limit - held further tokens are admitted, the next request is
-// refused, busy returns to held when they are released.
+// granted (held < limit at that moment); around 2^15, 2^16, 2^31 and 2^32 grants in total the busy count is read after
+// every single grant and release, and every 2^24 pairs the instance is audited: busy == held, exactly limit - held
+// further tokens are admitted, the next request is refused, busy returns to held when they are released.
 
 import (
 	"context"
@@ -139,24 +139,42 @@ func c01lOne(kind string, c c01lCase, total uint64) *kit.Outcome {
 		}
 		return nil
 	}
-	near := func(n uint64) bool {
+	// total grants made on the instance so far (standing tokens, pairs and the audits' own): what an internal running
+	// total would count. Within 2^16 grants of 2^15, 2^16, 2^31 and 2^32 the count is read after every single grant and
+	// after every single release - a counter that is wrong for the width of one outstanding token shows there - and
+	// every 2^24 pairs the instance goes through the full audit.
+	grants := uint64(c.Held)
+	inZone := func() bool {
 		for _, edge := range []uint64{1 << 15, 1 << 16, 1 << 31, 1 << 32} {
-			if n+512 >= edge && n <= edge+512 {
+			if grants+1<<16 >= edge && grants <= edge+1<<16 {
 				return true
 			}
 		}
-		return n&(1<<24-1) == 0
+		return false
 	}
 	for n := uint64(1); n <= total; n++ {
 		tk, ok := s.TryAcquire(ctx)
 		if !ok || tk == nil || !tk.IsAcquired() {
 			return viol(n, "the request was refused although only the %d standing token(s) are out", c.Held)
 		}
+		grants++
+		zone := inZone()
+		if zone {
+			if b := busy(); b != c.Held+1 {
+				return viol(n, "(%d grants in total) with the standing tokens and one more out the strategy counts %d outstanding", grants, b)
+			}
+		}
 		tk.Release()
-		if near(n) {
+		if zone {
+			if b := busy(); b != c.Held {
+				return viol(n, "(%d grants in total) with only the standing tokens out the strategy counts %d outstanding", grants, b)
+			}
+		}
+		if n&(1<<24-1) == 0 || (zone && n&1023 == 0) {
 			if o := audit(n); o != nil {
 				return o
 			}
+			grants += uint64(room - c.Held)
 		}
 	}
 	if o := audit(total); o != nil {
@@ -175,7 +193,7 @@ func TestC01_lifetime(t *testing.T) {
 	kit.RequireMode(t, "std")
 	kit.Check(t, kit.Prop[c01lCase]{
 		ID: "C01", Quick: 2, Thor: 1,
-		Rule: "one instance of every strategy kind (simple, precise, lookup, predicate; kinds side by side) grants and releases a token 2^20 (quick) / 2^32 (thorough) + 2^16 times with 1-3 tokens outstanding throughout; every pair is granted, and at every 2^24th grant and at every grant within 512 of 2^15, 2^16, 2^31, 2^32 the instance is audited against the counting gate (busy == held, exactly the rest of the limit admitted, the next refused); non-trivial = at least 2^20 pairs",
+		Rule: "one instance of every strategy kind (simple, precise, lookup, predicate; kinds side by side) grants and releases a token 2^20 (quick) / 2^32 (thorough) + 2^16 times with 1-3 tokens outstanding throughout; every pair is granted; within 2^16 grants of 2^15, 2^16, 2^31 and 2^32 (total grants made on the instance) the busy count is read after every single grant and release, and every 2^24 pairs (every 1024 inside those zones) the instance is audited against the counting gate (busy == held, exactly the rest of the limit admitted, the next refused); non-trivial = at least 2^20 pairs",
 		Gen: func(t *rapid.T) c01lCase {
 			c := c01lCase{Kinds: []string{"simple", "precise", "lookup", "predicate"}, Log2: 20, Held: rapid.IntRange(1, 3).Draw(t, "held")}
 			c.Limit = c.Held + rapid.IntRange(1, 3).Draw(t, "room")
